@@ -47,6 +47,16 @@ class Choice(betterproto.Message):
 
 
 @dataclass(eq=False, repr=False)
+class PChoice(betterproto.Message):
+    """the same oneof as Choice in the OTHER declaration style the public API / the plugin offers (pydantic_dataclasses
+    output, betterproto.lib.pydantic): every member optional=True + group, an unset member reads as None"""
+    count: Optional[int] = betterproto.int32_field(1, optional=True, group="pick")
+    label: Optional[str] = betterproto.string_field(2, optional=True, group="pick")
+    flag: Optional[bool] = betterproto.bool_field(3, optional=True, group="pick")
+    leaf: Optional["Leaf"] = betterproto.message_field(4, optional=True, group="pick")
+
+
+@dataclass(eq=False, repr=False)
 class Mid(betterproto.Message):
     leaf: "Leaf" = betterproto.message_field(1)
     name: str = betterproto.string_field(2)
@@ -380,6 +390,18 @@ def nested_unknown(m):
     return False
 
 
+def strip_unknown(m):
+    """the same message without unknown fields anywhere (done on a private object: callers pass make())"""
+    object.__setattr__(m, "_unknown_fields", b"")
+    for name in m._betterproto.sorted_field_names:
+        v = m.__dict__.get(name, betterproto.PLACEHOLDER)
+        vs = v if isinstance(v, list) else (list(v.values()) if isinstance(v, dict) else [v])
+        for x in vs:
+            if isinstance(x, betterproto.Message):
+                strip_unknown(x)
+    return m
+
+
 def to_ref(m):
     r = ref(type(m).__name__)()
     for name in m._betterproto.sorted_field_names:
@@ -691,6 +713,25 @@ def rel_C08(col, how, make):
         return
     if bytes(back) != b:
         col.fail("unknown-bytes-not-kept-verbatim", how, f"{b.hex()} -> {bytes(back).hex()}")
+    # "encoded again" through every writer the API offers: a relay that re-frames the decoded message for a delimited
+    # stream must write the same bytes behind the right length, and a reader of that stream gets them back
+    def delimited():
+        s = io.BytesIO()
+        back.dump(s, betterproto.SIZE_DELIMITED)
+        return s.getvalue()
+    def plain_dump():
+        s = io.BytesIO()
+        back.dump(s)
+        return s.getvalue()
+    for wname, fn, expect in (("SerializeToString", lambda: back.SerializeToString(), b), ("dump", plain_dump, b),
+                              ("dump-size-delimited", delimited, betterproto.encode_varint(len(b)) + b)):
+        w = guard(col, wname, how, fn)
+        if w is not None and w != expect and bytes(back) == b:
+            col.fail("unknown-bytes-not-kept-by-writer:" + wname, how, f"expected {expect.hex()} wrote {w.hex()}")
+        if w is not None and wname == "dump-size-delimited" and w == expect:
+            again = guard(col, "load-size-delimited", how, lambda: type(m)().load(io.BytesIO(w), betterproto.SIZE_DELIMITED))
+            if again is not None and bytes(again) != b:
+                col.fail("unknown-bytes-lost-through-delimited-relay", how, f"{b.hex()} -> {bytes(again).hex()}")
     # the same message as the reference encodes it (it keeps unknown fields of nested messages too): decoding and
     # re-encoding those bytes must be invisible to the reference
     def refnorm(x):
@@ -839,6 +880,58 @@ def assign_histories(col):
                     col.fail("assigned-inside-but-not-present:%d-level" % len(path), how, f"serialized_on_wire(m.{path[0]}) is False")
 
 
+def declaration_styles(col):
+    """a oneof declared in the optional=True + group style behaves like the plain declaration: for every member x
+    {default, non-default} x every way of setting it, the member is the selected one, the encoding is the reference's,
+    len agrees, and it survives a decode and a JSON round trip"""
+    for label, mk in choices()[1:]:
+        src = mk()
+        member, value = betterproto.which_one_of(src, "pick")
+        rb = to_ref(src).SerializeToString(deterministic=True)
+        ways = [("PChoice(%s=...)" % member, lambda: PChoice(**{member: value})),
+                ("p = PChoice(); p.%s = ..." % member, lambda: _assign(PChoice(), member, value)),
+                ("PChoice().parse(reference bytes)", lambda: PChoice().parse(rb)),
+                ("PChoice().from_dict(...)", lambda: PChoice().from_dict(src.to_dict())),
+                ("PChoice.from_dict(...)", lambda: PChoice.from_dict(src.to_dict())),
+                ("PChoice().from_json(...)", lambda: PChoice().from_json(src.to_json())),
+                ("copy.deepcopy(PChoice(%s=...))" % member, lambda: copy.deepcopy(PChoice(**{member: value})))]
+        for wname, way in ways:
+            how = f"{wname} with the value of {label}"
+            col.cases += 1
+            col.distinct.add(how)
+            p = guard(col, "build", how, way)
+            if p is None:
+                continue
+            sel = guard(col, "which_one_of", how, lambda: betterproto.which_one_of(p, "pick"))
+            if sel is None:
+                continue
+            if sel[0] != member:
+                col.fail("optional-style-oneof-member-not-selected", how, f"which_one_of={sel!r}, expected {member!r}")
+            b = guard(col, "encode", how, lambda: bytes(p))
+            if b is None:
+                continue
+            if b != rb:
+                col.fail("optional-style-oneof-encoding-differs-from-reference", how, f"ours {b.hex()} reference {rb.hex()}")
+            n = guard(col, "len", how, lambda: len(p))
+            if n is not None and n != len(b):
+                col.fail("optional-style-oneof-len-differs", how, f"len={n} len(bytes)={len(b)}")
+            back = guard(col, "decode", how, lambda: PChoice().parse(b))
+            if back is not None and b == rb and betterproto.which_one_of(back, "pick")[0] != member:
+                col.fail("optional-style-oneof-lost-by-decode", how, f"{betterproto.which_one_of(back, 'pick')!r}")
+            d = guard(col, "to_dict", how, lambda: p.to_dict())
+            if d is not None and b == rb and list(d) != [member]:
+                col.fail("optional-style-oneof-json-members", how, f"to_dict={d} expected only {member!r}")
+            if d is not None and b == rb:
+                j = guard(col, "from_dict", how, lambda: PChoice().from_dict(d))
+                if j is not None and bytes(j) != rb:
+                    col.fail("optional-style-oneof-json-round-trip", how, f"{rb.hex()} -> {bytes(j).hex()}")
+
+
+def _assign(m, name, value):
+    setattr(m, name, value)
+    return m
+
+
 def eq_histories(col):
     """C14: == is an observer also when the operands differ: neither operand changes"""
     pool = choices() + [("Choice(count=7, then leaf)", lambda: Choice(leaf=Leaf(n=2)))]
@@ -951,8 +1044,11 @@ def rel_C07(col, how, make):
 
 def rel_C04(col, how, make):
     m = make()
-    if "parse(only unknown" in how or "Hollow().parse" in how:
-        return          # JSON has no place for unknown fields
+    if m._unknown_fields or nested_unknown(m):
+        # JSON has no place for unknown fields (their survival is C08's subject, on the wire): the round trip is
+        # judged on the message without them
+        make0 = make
+        make = lambda: strip_unknown(make0())
     for cname, casing in (("CAMEL", betterproto.Casing.CAMEL), ("SNAKE", betterproto.Casing.SNAKE)):
         d = guard(col, "to_dict", how, lambda: m.to_dict(casing=casing))
         if d is None:
@@ -1314,6 +1410,19 @@ def shared_state_after_copy(col):
                         col.fail("decoding-into-one-object-changes-its-copy", how, f"{before.hex()} -> {bytes(other).hex()}")
 
 
+def extra(col, name, fn):
+    """run one group of relations; an exception that escapes it FROM THE LIBRARY (innermost frame in the repository's
+    source) is a reported failure of that group, an exception of the harness itself stays a crash (no verdict)"""
+    try:
+        fn()
+    except Exception as e:
+        tb = traceback.extract_tb(e.__traceback__)
+        if tb and "/betterproto/" in tb[-1].filename.replace("\\", "/") and "/standin" not in tb[-1].filename:
+            col.fail("library-raised:" + type(e).__name__, name, traceback.format_exc()[-500:])
+        else:
+            raise
+
+
 RELS = {"C01": rel_C01, "C02": rel_C02, "C04": rel_C04, "C06": rel_C06, "C07": rel_C07, "C08": rel_C08, "C09": rel_C09, "C10": rel_C09, "C14": rel_C14}
 
 
@@ -1327,14 +1436,14 @@ def main(argv=None):
     rnd = random.Random(a.seed * 7919 + 13)
     col = Col(a.prop)
     if a.twins_only:
-        twins(col, a.prop)
+        extra(col, "twins", lambda: twins(col, a.prop))
         json.dump({"property": a.prop, "cases": col.cases, "failures": col.fails}, sys.stdout, default=str)
         return 0
     if a.prop in ("C01", "C02", "C04", "C05", "C07", "C09", "C14", "C17", "C19", "C20"):
-        twins_both_orders(col, a.prop)
+        extra(col, "twins", lambda: twins_both_orders(col, a.prop))
     if a.prop == "C15":
-        rel_C15(col, rnd)
-        rel_C15_ts(col)
+        extra(col, "rel_C15", lambda: rel_C15(col, rnd))
+        extra(col, "rel_C15_ts", lambda: rel_C15_ts(col))
     else:
         rel = RELS.get(a.prop)
         for how, make in (instances(rnd, a.n) if rel is not None else []):
@@ -1361,20 +1470,22 @@ def main(argv=None):
                         ("Deep().parse(unknown fixed32 33 + known r_d)", lambda: Deep().parse(bytes.fromhex("8d020100000052080000000000000440"))),
                         ("Deep(mid=Mid(name='n')) + unknown", lambda: Deep().parse(bytes.fromhex("4a0312016ef00109")))]
             pairs += [(x, y) for x in carriers for y in carriers]
-            rel_merge(col, rnd, pairs)
+            extra(col, "rel_merge", lambda: rel_merge(col, rnd, pairs))
         if a.prop == "C06":
-            assign_histories(col)
-            defaults_check(col)
+            extra(col, "assign_histories", lambda: assign_histories(col))
+            extra(col, "defaults_check", lambda: defaults_check(col))
+        if a.prop in ("C01", "C04", "C06", "C07", "C09"):
+            extra(col, "declaration_styles", lambda: declaration_styles(col))
         if a.prop in ("C07", "C14"):
-            copy_histories(col)
+            extra(col, "copy_histories", lambda: copy_histories(col))
         if a.prop == "C14":
-            eq_histories(col)
+            extra(col, "eq_histories", lambda: eq_histories(col))
         if a.prop in ("C08", "C14"):
-            shared_state_after_copy(col)
+            extra(col, "shared_state_after_copy", lambda: shared_state_after_copy(col))
         if a.prop in ("C10", "C16"):
-            stream_kinds(col)
+            extra(col, "stream_kinds", lambda: stream_kinds(col))
         if a.prop in ("C01", "C02", "C08", "C09", "C10", "C17"):
-            high_numbers(col, a.prop)
+            extra(col, "high_numbers", lambda: high_numbers(col, a.prop))
     if not col.samples:
         col.samples.append({"instance": "Duration JSON strings" if a.prop == "C15" else "Deep()", "cases": col.cases})
     json.dump({"property": a.prop, "cases": col.cases, "distinct_nontrivial": len(col.distinct) - 1 if a.prop != "C15" else len(col.distinct),
